@@ -63,8 +63,8 @@ theorem c17_minshift_exact_partial (za zb : Int) (a b : List Int)
   have := dotZ_shift (minShift a) 0 za zb a b
   simpa using this
 
-/-- **Finding (open, static — not reproducible on this host, whose default kernel is AVX-512
-VNNI)**: `shift_cast_gemm_lhs_to_u8` truncates `zero_point + shift` with `as u8`.  When an `i8` LHS
+/-- **Observation (not a finding: no failing input can be shown on the real code on this host,
+whose default int8 kernel is AVX-512 VNNI)**: `shift_cast_gemm_lhs_to_u8` truncates `zero_point + shift` with `as u8`.  When an `i8` LHS
 has a zero point below `min(0, min value)` the truncation wraps: `a = [1, 2]`, `za = −3` gives
 shift 0 and zero point 253, so the wrapper computes `Σ (a − 253)·b` instead of `Σ (a + 3)·b`. -/
 theorem c17_minshift_zero_point_wraps :
@@ -91,10 +91,11 @@ theorem c17_conv_padding_exact (dw dx : Dt) (wz xz : Int) (ts : List Tap) :
   unfold convGemm padFixed lhsToU8 rhsToI8
   exact convCore (lhsShift dw) (rhsShift dx) wz xz ts
 
-/-- **Finding (fixed, `findings/C17.json`: `C17-convinteger-padding-ignores-zero-point`)** before
-the fix `pack_block_int8` packed out-of-image taps as 0, so every padded tap contributed
+/-- **Finding (fixed, `findings/C17.json`: `C17-convinteger-padding`)** before the fix
+`pack_block_int8` packed out-of-image taps as 0 (`padOld`), so every padded tap contributed
 `(w − wz)·(0 − xz')`.  One padded tap, `u8` image with zero point 0, weight 3: the code gave
-`3·(0 − (−128)) = 384`, the definition gives 0. -/
+`3·(0 − (−128)) = 384`, the definition gives 0 (reproduced through `Model::run` on the unchanged
+tree; `c17_conv_padding_exact` shows the pad value must be the zero point). -/
 theorem c17_conv_padding_zero_was_wrong :
     convGemm .i8 .u8 (padOld .u8 0) 0 0 [{ wt := 3, x := 0, valid := false }] = 384 ∧
     convDef 0 0 [{ wt := 3, x := 0, valid := false }] = 0 := by decide
